@@ -7,7 +7,7 @@ import loader
 
 PARSER_BOUNDS = {"quick": [1, 2, 3], "thorough": [1, 2, 3, 4]}
 # quick also explores 4 tokens over a reduced vocabulary (one representative per kind of primary)
-SMALL_VOCAB = ["-true", "-print", "-quit", "-empty", "!", "-a", "-o", ",", "(", ")"]
+SMALL_VOCAB = ["-true", "-false", "-print", "-quit", "-empty", "!", "-a", "-o", ",", "(", ")"]
 TINY_VOCAB = ["-true", "-print", "!", "-a", ","]
 MID_VOCAB = ["-true", "-print", "!", "-a", "-o", ",", "(", ")"]
 PRIMS = {"-true", "-false", "-print", "-print0", "-prune", "-quit", "-empty", "-readable"}
@@ -387,6 +387,36 @@ def run_types(tier, funcs, index, enums, res):
     res["bounds"] = (res.get("bounds") + "; " if res.get("bounds") else "") + b
 
 
+def run_records(tier, funcs, index, enums, res, text, only=None):
+    import c13_records as c13r
+    quick = [("-uid", "7"), ("-gid", "+7"), ("-links", "-2"), ("-inum", "100"), ("-user", "daemon"), ("-group", "7"), ("-size", "0c"), ("-size", "+9c"), ("-empty", None), ("-samefile", "ref")]
+    sentences = list(c13r.SENTENCES) if tier == "thorough" else quick
+    if only:
+        sentences = [s for s in sentences if s[0] in only]
+    saved = c13r.SENTENCES
+    c13r.SENTENCES = sentences
+    try:
+        r = c13r.explore(funcs, index, enums, text)
+    finally:
+        c13r.SENTENCES = saved
+    res["functions_executed"].update(r.pop("functions_executed"))
+    for v in r.pop("violations"):
+        res["violations"].append({"key": "stat record | %s | %s" % (v.get("class"), ",".join(v.get("world", "").split(",")[1:]).strip()), "summary": v["what"][:600], "replayer": "stat_cli",
+                                  "what": v["what"][:600], "world": v.get("world"), "sentence": v.get("sentence")})
+    for k, c in r.pop("unsupported").items():
+        res["unsupported"][k] = res["unsupported"].get(k, 0) + c
+    r["bound"] = "stat-based tests through the parser over the symbolic lstat/stat world, %d sentences" % len(sentences)
+    r["inputs_covered"] = r.pop("checks")
+    res["runs"].append(r)
+    t = ("build_top_level_matcher on `PRIMARY OPERAND` + UserMatcher / GroupMatcher / InodeMatcher / LinksMatcher / SizeMatcher / EmptyMatcher / SameFileMatcher::{new.., matches} + get_file_info + "
+         "WalkEntry::{new,from_walkdir,metadata,file_type,follow} + Follow::{metadata,metadata_at_depth} + ComparableValue::matches over a symbolic lstat/stat world whose two records have "
+         "independent symbolic uid, gid, nlink, ino, dev, size")
+    b = ("stat records: sentences %r; lstat type in 7 kinds, stat of a link = one of 6 kinds or errno ENOENT/ELOOP/EACCES, -P/-H/-L, depth 0/1, explicit and walkdir entries; every field of both records "
+         "a z3 Int in 0..2^32 (readdir's d_ino a further one); the verdict equals the documented function of the record the follow mode selects, for all field values (z3, per path)" % (sentences,))
+    res["target"] = (res.get("target") + "; " if res.get("target") else "") + t
+    res["bounds"] = (res.get("bounds") + "; " if res.get("bounds") else "") + b
+
+
 def run_printf(tier, funcs, index, enums, res):
     import c16_printf as c16
     res["target"] = ("FormatString::parse (parse_format_specifier, parse_format_width, parse_escape_sequence, advance_*/peek) on format strings assembled from a vocabulary of items, "
@@ -498,6 +528,24 @@ def main():
         run_batching(tier, funcs, index, enums, res, orders)
         if prop == "C04":
             res["target"] += "; " + tb[0]; res["bounds"] += "; " + tb[1]
+            # "arguments drawn from at most max-lines input lines (a line ending in a blank continues on the next line)": which arguments end an input
+            # line is the reader's verdict; the batching run above takes it as a symbolic flag per argument. Here the whitespace reader decides it.
+            import c05_readers as r5
+            la = [0x61, 0x20, 0x0A, 0x09]
+            for n in (1, 2, 3, 4):
+                r = r5.explore("ws", n, la, funcs, index, enums)
+                res["functions_executed"].update(r.pop("functions_executed"))
+                for v in r.pop("violations"):
+                    res["violations"].append({"key": "input lines | %s" % v["what"].split(",")[0][:40], "summary": "whitespace reader, input %s, read() sizes %s: %s" % (v.get("input"), v.get("chunks"), v["what"]),
+                                              "replayer": "reader_lines", "kind": "ws", "input": v.get("input"), "delimiter": None, "chunks": v.get("chunks"), "what": v["what"]})
+                for k, c in r.pop("unsupported").items():
+                    res["unsupported"][k] = res["unsupported"].get(k, 0) + c
+                r["bound"] = "ws reader (input lines), %d bytes over 4 letters" % n
+                r.pop("chunkings")
+                res["runs"].append(r)
+            res["target"] += "; WhitespaceDelimitedArgumentReader::next until end of input: which arguments end an input line (what -L counts)"
+            res["bounds"] += ("; input lines: every input of 1..4 bytes over {a, blank, newline, tab} under every read() chunking - an argument ends its line iff a newline follows it directly "
+                              "(a blank before the newline continues the line; empty lines and leading newlines end nothing)")
         if prop == "C19":
             run_classify(tier, funcs, index, enums, res)
             # "its own input errors (unterminated quote) give exit status 1": whether the reader reports the error at all, on every input of 1..3 bytes
@@ -553,6 +601,9 @@ def main():
         res["bounds"] += "; clock: every now() returns one and the same instant read by new(), for all instants and 0..2 clock ticks before and between the calls"
     elif prop == "C14":
         run_values(tier, funcs, index, enums, res)
+        if tier == "thorough":
+            # the uniform N / +N / -N reading of -uid -gid -links -inum -size seen through the parser and the matchers, on symbolic records
+            run_records(tier, funcs, index, enums, res, text, only=("-uid", "-gid", "-links", "-inum", "-size"))
     elif prop == "C10":
         run_delete(tier, funcs, index, enums, res, text)
     elif prop in ("C08", "C09"):
@@ -602,6 +653,7 @@ def main():
         res["target"] += "; parse_args + do_find on command lines of leading follow flags (process_dir a recorder): the follow mode in force"
         res["bounds"] += "; follow flags: every command line of 1..4 tokens over %r - the mode is that of the last of -P / -H / -L before the first operand" % fv
         run_perm(tier, funcs, index, enums, res)
+        run_records(tier, funcs, index, enums, res, text)
     elif prop == "C07":
         run_print0(tier, funcs, index, enums, res)
         run_readers(tier, funcs, index, enums, res, only_bytes=True)
